@@ -3,12 +3,12 @@ CONSTANTS
   Fix = {"tail", "suffix", "epoch"}
   Taints = {}
   GenMode = FALSE
-  MaxOps = 3
+  MaxOps = 4
   MaxPost = 2
-  MaxRecs = 4
+  MaxRecs = 6
   MaxBatch = 2
   MaxEpoch = 2
-  MaxHit = 3
+  MaxHit = 4
   CapSet = {2}
   RetSet = {0, 2}
   CompactSet = {FALSE, TRUE}
